@@ -204,6 +204,8 @@ def _line(r):
         return {"e": "release_fire", "t": t}
     if e == "release_done":
         return {"e": "release_done", "t": t, "released": bool(r["released"])}
+    if e == "send_checked":
+        return {"e": "send_check", "t": t}
     if e == "ext_send_begin":
         return {"e": "send_begin", "t": t}
     if e == "ext_send_end":
@@ -511,6 +513,33 @@ class ServerSystem:
         t = self._run(self.server._service.send_event(hid, ev, step=target))
         ok = t.done() and t.exception() is None
         self.log({"e": "send_ext", "hid": hid, "ty": ty, "uid": uid, "ok": ok,
+                  "err": "" if ok else (type(t.exception()).__name__ if t.done() else "pending")})
+        return t
+
+    def send_checked(self, hid):
+        """First half of _WorkflowService.send_event: the handler is resolved (and refused if it is terminal).  The awaits
+        between this check and the adapter's send (store read, reload lock) are where a run can finish."""
+        self.log({"e": "cmd", "cmd": ["send_checked", hid]})
+        t = self._run(self.server._service.resolve_handler(hid))
+        ok = t.done() and t.exception() is None
+        if ok:
+            self.log({"e": "send_checked", "hid": hid})
+        return t.result() if ok else None
+
+    def send_after_check(self, handler_data, ty, uid, k=0, target=None):
+        """Second half of _WorkflowService.send_event for a handler resolved earlier (same statements as the service)."""
+        from workflows.handler import WorkflowHandler
+        self.log({"e": "cmd", "cmd": ["send_after_check", handler_data.handler_id, ty, uid, str(k)]})
+        ev = E.TYPES[ty](uid=uid, k=k)
+        rt = self.server._service._runtime
+        workflow = rt.get_workflow(handler_data.workflow_name)
+
+        async def go():
+            handler = WorkflowHandler(workflow, rt.get_external_adapter(handler_data.run_id))
+            await handler.send_event(ev, step=target)
+        t = self._run(go())
+        ok = t.done() and t.exception() is None
+        self.log({"e": "send_ext", "hid": handler_data.handler_id, "ty": ty, "uid": uid, "ok": ok,
                   "err": "" if ok else (type(t.exception()).__name__ if t.done() else "pending")})
         return t
 
